@@ -107,17 +107,28 @@ def resolve_def(ctx, mod, st, sigs):
     cls = tfd_class(ctor)
     if cls is not None:
         return cls, list(sigs.get(cls, [])), {}, None
+    # functools.partial(tfd.Class, <bound positionals>, <bound keywords>): the remaining constructor parameters, in order
+    if ctor[0] == "partial" and tfd_class(ctor[1]) is not None and not any(a[0] == "star" for a in ctor[2]) and all(k is not None for k, _ in ctor[3]):
+        cls = tfd_class(ctor[1])
+        sig = list(sigs.get(cls, []))
+        fixed = {sig[i]: ts(a, ev).replace("jax.numpy.", "jnp.") for i, a in enumerate(ctor[2]) if i < len(sig)}
+        fixed.update({k: ts(v, ev).replace("jax.numpy.", "jnp.") for k, v in ctor[3]})
+        return cls, [p_ for p_ in sig[len(ctor[2]):] if p_ not in dict(ctor[3])], fixed, None
     # a lambda / module-level function around tfd.Class(...)
+    VA, KW = ("param", "__varargs__"), ("param", "__varkw__")
     if ctor[0] == "closure":
         node = ev.closures[ctor[1]].node
         lam_params = [a.arg for a in node.args.args]
-        body = ev.apply_closure(ctor, tuple(("param", p_) for p_ in lam_params), ())
+        args_ = tuple(("param", p_) for p_ in lam_params) + ((("star", VA),) if node.args.vararg is not None else ())
+        body = ev.apply_closure(ctor, args_, ((None, KW),) if node.args.kwarg is not None else ())
     elif ctor[0] == "name" and ctor[1].startswith("genjax."):
         look = ctx.p.lookup(ctor[1])
         if look is None or look[0] != "func":
             return None
-        lam_params = [a.arg for a in look[1].args.args]
-        body = ev.eval_funcnode(look[1], look[2], ctor[1], args=tuple(("param", p_) for p_ in lam_params), kwargs=()).ret
+        node = look[1]
+        lam_params = [a.arg for a in node.args.args]
+        args_ = tuple(("param", p_) for p_ in lam_params) + ((("star", VA),) if node.args.vararg is not None else ())
+        body = ev.eval_funcnode(look[1], look[2], ctor[1], args=args_, kwargs=((None, KW),) if node.args.kwarg is not None else ()).ret
     else:
         return None
     if body is None or not is_call(body):
@@ -127,9 +138,13 @@ def resolve_def(ctx, mod, st, sigs):
         return None
     sig = sigs.get(cls, [])
     binding, fixed = {}, {}
+    passthrough = None
     for i, a in enumerate(body[2]):
         if a[0] == "param" and a[1] in lam_params and i < len(sig):
             binding[a[1]] = sig[i]
+        if a[0] == "star" and (a[1] == VA or (a[1][0] == "param" and node.args.vararg is not None and a[1][1] == node.args.vararg.arg)) and passthrough is None:
+            # f(named..., *args) -> tfd.Class(named..., *args): the caller's further positionals continue the constructor's own order
+            passthrough = i
     for k, v in body[3]:
         if k is None:
             continue
@@ -146,7 +161,10 @@ def resolve_def(ctx, mod, st, sigs):
             binding[tril[2][0][1]] = "covariance_matrix"
             fixed.pop("scale_tril", None)
             cls = "MultivariateNormalFullCovariance"
-    return cls, [binding.get(p_) for p_ in lam_params], fixed, lam_params
+    out = [binding.get(p_) for p_ in lam_params]
+    if passthrough is not None and passthrough == len(lam_params):
+        out = out + [p_ for p_ in sig[passthrough:]]
+    return cls, out, fixed, lam_params
 
 
 def docs_of(mod):
